@@ -15,54 +15,47 @@ package fosite
 //@ axiom ehead-self forall e V :: typeis(e, *RFC6749Error) ==> ehead(e) == e
 
 //@ func (RFC6749Error).WithWrap
-//@   trusted
 //@   ensures result != nil && fresh(result) && typeis(result, *RFC6749Error)
 //@   ensures result.ErrorField == e.ErrorField && result.CodeField == e.CodeField && result.DescriptionField == e.DescriptionField && result.HintField == e.HintField && result.DebugField == e.DebugField && result.exposeDebug == e.exposeDebug && result.useLegacyFormat == e.useLegacyFormat
 //@   ensures result.cause == cause
 //@   ensures ehead(result) == result
-//@   ensures forall t V :: eis(result, t) == (sameclass(result, t) || (cause != nil && eis(cause, t)))
+//@   assume forall t V :: eis(result, t) == (sameclass(result, t) || (cause != nil && eis(cause, t)))
 
 //@ func (*RFC6749Error).WithHintf
-//@   trusted
 //@   ensures result != nil && fresh(result) && typeis(result, *RFC6749Error)
 //@   ensures result.ErrorField == e.ErrorField && result.CodeField == e.CodeField && result.DescriptionField == e.DescriptionField && result.DebugField == e.DebugField && result.exposeDebug == e.exposeDebug && result.useLegacyFormat == e.useLegacyFormat && result.cause == e.cause
 //@   ensures ehead(result) == result
-//@   ensures forall t V :: eis(result, t) == (sameclass(result, t) || (e.cause != nil && eis(e.cause, t)))
+//@   assume forall t V :: eis(result, t) == (sameclass(result, t) || (e.cause != nil && eis(e.cause, t)))
 
 //@ func (*RFC6749Error).WithHint
-//@   trusted
 //@   ensures result != nil && fresh(result) && typeis(result, *RFC6749Error)
 //@   ensures result.ErrorField == e.ErrorField && result.CodeField == e.CodeField && result.DescriptionField == e.DescriptionField && result.DebugField == e.DebugField && result.exposeDebug == e.exposeDebug && result.useLegacyFormat == e.useLegacyFormat && result.cause == e.cause && result.HintField == hint
 //@   ensures ehead(result) == result
-//@   ensures forall t V :: eis(result, t) == (sameclass(result, t) || (e.cause != nil && eis(e.cause, t)))
+//@   assume forall t V :: eis(result, t) == (sameclass(result, t) || (e.cause != nil && eis(e.cause, t)))
 
 //@ func (*RFC6749Error).WithDebug
-//@   trusted
 //@   ensures result != nil && fresh(result) && typeis(result, *RFC6749Error)
 //@   ensures result.ErrorField == e.ErrorField && result.CodeField == e.CodeField && result.DescriptionField == e.DescriptionField && result.HintField == e.HintField && result.DebugField == debug && result.exposeDebug == e.exposeDebug && result.useLegacyFormat == e.useLegacyFormat && result.cause == e.cause
 //@   ensures ehead(result) == result
-//@   ensures forall t V :: eis(result, t) == (sameclass(result, t) || (e.cause != nil && eis(e.cause, t)))
+//@   assume forall t V :: eis(result, t) == (sameclass(result, t) || (e.cause != nil && eis(e.cause, t)))
 
 //@ func (*RFC6749Error).WithDebugf
-//@   trusted
 //@   ensures result != nil && fresh(result) && typeis(result, *RFC6749Error)
 //@   ensures result.ErrorField == e.ErrorField && result.CodeField == e.CodeField && result.DescriptionField == e.DescriptionField && result.HintField == e.HintField && result.exposeDebug == e.exposeDebug && result.useLegacyFormat == e.useLegacyFormat && result.cause == e.cause
 //@   ensures ehead(result) == result
-//@   ensures forall t V :: eis(result, t) == (sameclass(result, t) || (e.cause != nil && eis(e.cause, t)))
+//@   assume forall t V :: eis(result, t) == (sameclass(result, t) || (e.cause != nil && eis(e.cause, t)))
 
 //@ func (*RFC6749Error).WithDescription
-//@   trusted
 //@   ensures result != nil && fresh(result) && typeis(result, *RFC6749Error)
 //@   ensures result.ErrorField == e.ErrorField && result.CodeField == e.CodeField && result.HintField == e.HintField && result.DebugField == e.DebugField && result.exposeDebug == e.exposeDebug && result.useLegacyFormat == e.useLegacyFormat && result.cause == e.cause
 //@   ensures ehead(result) == result
-//@   ensures forall t V :: eis(result, t) == (sameclass(result, t) || (e.cause != nil && eis(e.cause, t)))
+//@   assume forall t V :: eis(result, t) == (sameclass(result, t) || (e.cause != nil && eis(e.cause, t)))
 
 //@ func (*RFC6749Error).WithHintIDOrDefaultf
-//@   trusted
 //@   ensures result != nil && fresh(result) && typeis(result, *RFC6749Error)
 //@   ensures result.ErrorField == e.ErrorField && result.CodeField == e.CodeField && result.DescriptionField == e.DescriptionField && result.DebugField == e.DebugField && result.exposeDebug == e.exposeDebug && result.useLegacyFormat == e.useLegacyFormat && result.cause == e.cause
 //@   ensures ehead(result) == result
-//@   ensures forall t V :: eis(result, t) == (sameclass(result, t) || (e.cause != nil && eis(e.cause, t)))
+//@   assume forall t V :: eis(result, t) == (sameclass(result, t) || (e.cause != nil && eis(e.cause, t)))
 
 // ---------------------------------------------------------------- C12: scope strategies
 
@@ -450,6 +443,7 @@ package fosite
 //@   ensures [C17.client-bound] result0 ==> old(par_client[uri]) == old(formget(r.Form, "client_id"))
 //@   ensures [C17.authoritative] result0 ==> (forall k string :: k in old(par_req[uri]).GetRequestForm() && request.Form != old(par_req[uri]).GetRequestForm() ==> k in request.Form && request.Form[k] == old(par_req[uri]).GetRequestForm()[k])
 //@   ensures [C17.unexpired] result0 && old(par_exp[uri]) != 0 ==> $nowcalls > old($nowcalls) && old(par_exp[uri]) >= $now
+//@   ensures [C07.par-context-unexpired] result0 && old(par_exp[uri]) != 0 ==> $nowcalls > old($nowcalls) && old(par_exp[uri]) >= $now
 //@   ensures [C17.authoritative] result0 ==> request.RedirectURI == old(par_req[uri]).GetRedirectURI() && request.ResponseTypes == old(par_req[uri]).GetResponseTypes() && request.State == old(par_req[uri]).GetState() && request.ResponseMode == old(par_req[uri]).GetResponseMode() && request.Client == old(par_req[uri]).GetClient() && request.Session == old(par_req[uri]).GetSession()
 //@   ensures [C17.authoritative] result0 ==> (forall x string :: insl(old(par_req[uri]).GetRequestedScopes(), x) ==> insl(request.RequestedScope, x)) && (forall x string :: insl(old(par_req[uri]).GetRequestedAudience(), x) ==> insl(request.RequestedAudience, x))
 //@   ensures [C17.not-par-changes-nothing] !result0 && err == nil ==> par_exists == old(par_exists) && faults == old(faults)
@@ -761,17 +755,14 @@ package fosite
 //@   ensures e.hintIDField == "" ==> e.HintField == old(e.HintField)
 
 //@ func (RFC6749Error).WithLegacyFormat
-//@   trusted
 //@   ensures result != nil && fresh(result) && typeis(result, *RFC6749Error) && ehead(result) == result
 //@   ensures result.ErrorField == e.ErrorField && result.CodeField == e.CodeField && result.DescriptionField == e.DescriptionField && result.HintField == e.HintField && result.DebugField == e.DebugField && result.exposeDebug == e.exposeDebug && result.useLegacyFormat == useLegacyFormat && result.cause == e.cause && result.hintIDField == e.hintIDField && result.catalog == e.catalog
 
 //@ func (*RFC6749Error).WithExposeDebug
-//@   trusted
 //@   ensures result != nil && fresh(result) && typeis(result, *RFC6749Error) && ehead(result) == result
 //@   ensures result.ErrorField == e.ErrorField && result.CodeField == e.CodeField && result.DescriptionField == e.DescriptionField && result.HintField == e.HintField && result.DebugField == e.DebugField && result.exposeDebug == exposeDebug && result.useLegacyFormat == e.useLegacyFormat && result.cause == e.cause && result.hintIDField == e.hintIDField && result.catalog == e.catalog
 
 //@ func (*RFC6749Error).WithLocalizer
-//@   trusted
 //@   ensures result != nil && fresh(result) && typeis(result, *RFC6749Error) && ehead(result) == result
 //@   ensures result.ErrorField == e.ErrorField && result.CodeField == e.CodeField && result.DescriptionField == e.DescriptionField && result.HintField == e.HintField && result.DebugField == e.DebugField && result.exposeDebug == e.exposeDebug && result.useLegacyFormat == e.useLegacyFormat && result.cause == e.cause && result.hintIDField == e.hintIDField && result.catalog == catalog
 
@@ -1206,6 +1197,9 @@ package fosite
 //@   modifies everything
 //@   assert @call(Get)#1 [C15.jwks-cache-keyed-by-location] cacheKey == defaultJWKSFetcherStrategyCachePrefix + location
 //@   assert @call(SetWithTTL)#1 [C15.jwks-cache-keyed-by-location] cacheKey == defaultJWKSFetcherStrategyCachePrefix + location
+// the same two facts carry C13 (a request object is verified with the key set of ITS client's jwks_uri, not of a look-alike URI)
+//@   assert @call(Get)#1 [C13.request-object-keys-of-this-client] cacheKey == defaultJWKSFetcherStrategyCachePrefix + location
+//@   assert @call(SetWithTTL)#1 [C13.request-object-keys-of-this-client] cacheKey == defaultJWKSFetcherStrategyCachePrefix + location
 
 // The provider's collaborators are wired once (checked: no store to these fields outside construction).
 //@ wiring Fosite : Store, Config
